@@ -213,6 +213,36 @@ def install_spec_builtins(ip):
         return PList(list(ip.path.trace))
     B["trace"] = Builtin("trace", trace)
 
+    from .prims import ufun
+
+    def mk_pred(fname, srt):
+        def f(ip, a, k):
+            v = a[0]
+            if not isinstance(v, Sym):
+                from . import api
+                return getattr(api, fname)(v)
+            if srt == zu.StrS:
+                c4, c6 = ufun("canonical_ipv4", zu.StrS, zu.BoolS), ufun("canonical_ipv6", zu.StrS, zu.BoolS)
+                i4, i6 = ufun("is_ipv4_text", zu.StrS, zu.BoolS), ufun("is_ipv6_text", zu.StrS, zu.BoolS)
+                ip.path.assume(z3.And(z3.Implies(c4(v.t), z3.And(i4(v.t), z3.Not(i6(v.t)))),
+                                      z3.Implies(c6(v.t), z3.And(i6(v.t), z3.Not(i4(v.t))))))
+            return sym_bool(ip, ufun(fname, srt, zu.BoolS)(v.t))
+        return Builtin(fname, f)
+    B["canonical_ipv4"] = mk_pred("canonical_ipv4", zu.StrS)
+    B["canonical_ipv6"] = mk_pred("canonical_ipv6", zu.StrS)
+    B["valid_utf8"] = mk_pred("valid_utf8", zu.BytesS)
+
+    def be(ip, a, k):
+        n, w = a
+        if not isinstance(w, int):
+            raise Unsupported("be() width must be concrete")
+        if isinstance(n, (int, bool)):
+            return int(n).to_bytes(w, "big")
+        from .prims import byte_decomp
+        bs = byte_decomp(ip, ip.to_z3(n, "int"), w)
+        return ip.wrap(z3.Concat(*[z3.Unit(b) for b in bs]) if w > 1 else z3.Unit(bs[0]), "bytes")
+    B["be"] = Builtin("be", be)
+
     B["resolve_class"] = Builtin("resolve_class", lambda ip, a, k: ip.resolve_class(a[0]))
     B["resolve_module"] = Builtin("resolve_module", lambda ip, a, k: ip.src.load_path(a[0]))
 
